@@ -456,6 +456,23 @@ def _r1(chk, model: Model, views: dict[str, MethodView], store: str, mediators: 
             chk.ob("C22.R1", f"ContextVar `{loc.name}` is task-local: its default is immutable (a shared default object would be mutated by every task that has not set it)", ok,
                    m=m, node=loc.node, fn=enclosing_function(loc.node) if loc.node is not None else None, instance=f"taskLocal-default:{loc.name}",
                    reason=f"default `{ast.unparse(dflt)[:60] if dflt is not None else ''}` is one object shared by all tasks")
+            plain_attrs = {l.name for l in model.locs if l.kind in ("attr", "classattr") and l.nature == "plain"}
+            plain_globals = {l.name for l in model.locs if l.kind == "global"}
+            for v in views.values():
+                for c in walk_shallow(v.fn):
+                    if not (isinstance(c, ast.Call) and isinstance(c.func, ast.Attribute) and c.func.attr == "set" and c.args):
+                        continue
+                    recv = c.func.value
+                    if not ((isinstance(recv, ast.Name) and recv.id == loc.name) or (isinstance(recv, ast.Attribute) and recv.attr == loc.name)):
+                        continue
+                    val = expand(c.args[0], c)
+                    shared = [x.attr for x in ast.walk(val) if isinstance(x, ast.Attribute) and isinstance(x.value, ast.Name) and x.value.id == v.sn and x.attr in plain_attrs
+                              and not (isinstance(parent(x), ast.Call) and False)]
+                    # `_Resolution(self)` passes the manager itself, which is fine; a *stored* object (self.<attr>) or a module global is shared
+                    shared += [x.id for x in ast.walk(val) if isinstance(x, ast.Name) and x.id in plain_globals]
+                    chk.ob("C22.R1", f"the value put into ContextVar `{loc.name}` is created per scope (a stored object would be the same for every task)", not shared,
+                           m=m, node=c, fn=v.fn, instance=f"taskLocal-shared-value:{loc.name}",
+                           reason=f"`{ast.unparse(c)[:70]}` publishes `{shared[0] if shared else ''}`, one object kept on the manager / module, to every task")
             if loc.kind == "cv" and loc.node is not None and enclosing_function(loc.node) is not None:
                 chk.observe(f"C22.R1: ContextVar `{loc.name}` is created per instance; contexts keep ContextVars alive (leak under workflow churn) — outside the statement")
             continue
@@ -766,6 +783,18 @@ def _r5(chk, model: Model, views: dict[str, MethodView], store: str) -> None:
             # a scope that sets nothing up has nothing to undo; it must then not be a scope at all
             raise AnchorError(f"C22.R5: scope generator {v.name} performs no recognised set-up before its yield")
         for n, kind, target, extra in setups:
+            if kind == "token":
+                nested_ok = False
+                for t, _lab in cfg.guards(n):
+                    if t.kind != "test":
+                        continue
+                    for variant in (t.ast.test, expand(t.ast.test, t.ast)):
+                        if any(isinstance(c, ast.Call) and isinstance(c.func, ast.Attribute) and c.func.attr == "get" and ast.unparse(c.func.value) == target for c in ast.walk(variant)):
+                            nested_ok = True
+                chk.ob("C22.R5", "a nested scope of the same task keeps the outer resolution (a fresh one is installed only when none of this manager is active)", nested_ok,
+                       m=m, node=n.ast, fn=v.fn, instance="scope-nesting",
+                       reason=f"`{' '.join(ast.unparse(n.ast).split())[:60]}` is not guarded by a test of `{target}.get()`: every nested get() starts with an empty chain and cache "
+                              "(a genuine cycle recurses instead of being reported; non-cached dependencies are no longer shared within one resolution)")
             undo = []
             for u in cfg.nodes:
                 s = u.ast
@@ -868,7 +897,14 @@ def _class_text() -> str:
     except OSError:
         return "\0resource.py missing"
     i = src.find("class ResourceManager:")
-    return src[i:] if i >= 0 else "\0class ResourceManager missing"
+    if i < 0:
+        return "\0class ResourceManager missing"
+    # the task-local resolution record and its ContextVar (when present) belong to the replaced block
+    for marker in ("class _Resolution", "_RESOLUTION:", "_RESOLUTION ="):
+        j = src.find("\n" + marker)
+        if 0 <= j + 1 < i:
+            i = j + 1
+    return src[i:]
 
 
 _HEAD = '''class _Resolution:
@@ -1037,6 +1073,75 @@ def _variant(*edits: tuple[str, str]) -> str:
     return s
 
 
+_PINNED_CLASS = '''class ResourceManager:
+    """Manage resource lifecycles and caching across workflow steps.
+
+    Methods:
+        set: Manually set a resource by name.
+        get: Produce or retrieve a resource via its descriptor.
+        get_all: Return the internal name->resource map.
+    """
+
+    def __init__(self) -> None:
+        self.resources: dict[str, Any] = {}
+        self._resolving: list[str] = []  # Track resources being resolved in order
+        self._resolution_cache: dict[str, Any] = {}
+        self._resolution_depth = 0
+
+    @contextmanager
+    def resolution_scope(self) -> Iterator[None]:
+        """Scope non-cached resolution values to a single dependency graph."""
+        self._resolution_depth += 1
+        try:
+            yield
+        finally:
+            self._resolution_depth -= 1
+            if self._resolution_depth == 0:
+                self._resolution_cache.clear()
+
+    async def set(self, name: str, val: Any) -> None:
+        """Register a resource instance under a name."""
+        self.resources.update({name: val})
+
+    async def get(self, resource: ResourceDescriptor) -> Any:
+        if self._resolution_depth == 0:
+            with self.resolution_scope():
+                return await self._get(resource)
+        return await self._get(resource)
+
+    async def _get(self, resource: ResourceDescriptor) -> Any:
+        """Return a resource instance, honoring cache settings.
+
+        Works with any ResourceDescriptor implementation (_Resource or _ResourceConfig).
+        """
+        # Cycle detection
+        if resource.name in self._resolving:
+            chain = " -> ".join(self._resolving) + f" -> {resource.name}"
+            raise ValueError(f"Circular resource dependency detected: {chain}")
+
+        # Check cache first (before marking as resolving)
+        if resource.cache and resource.name in self.resources:
+            return self.resources[resource.name]
+        if resource.name in self._resolution_cache:
+            return self._resolution_cache[resource.name]
+
+        # Mark as resolving for cycle detection
+        self._resolving.append(resource.name)
+        try:
+            val = await resource.resolve(self)
+            if resource.cache:
+                await self.set(resource.name, val)
+            self._resolution_cache[resource.name] = val
+            return val
+        finally:
+            if resource.name in self._resolving:
+                self._resolving.remove(resource.name)
+
+    def get_all(self) -> dict[str, Any]:
+        """Return all materialized resources."""
+        return self.resources
+'''
+
 _OLD = _class_text()
 
 TWINS = [
@@ -1137,6 +1242,13 @@ TWINS = [
 )''', '''_RESOLUTION: ContextVar[_Resolution] = ContextVar(
     "workflows_resource_resolution", default=_Resolution(None)
 )'''),), "C22.R1"),
+    Twin("repair, but one resolution record is created in __init__ and published to every task", _P, _OLD, _variant(
+        ("        self._creating: dict[str, asyncio.Lock] = {}\n", "        self._creating: dict[str, asyncio.Lock] = {}\n        self._state = _Resolution(self)\n"),
+        ("        token = _RESOLUTION.set(_Resolution(self))\n", "        token = _RESOLUTION.set(self._state)\n"),
+    ), "C22.R1"),
+    Twin("repair, but the nested-scope test is dropped", _P, _OLD, _variant(
+        ("        if current is not None and current.manager is self:\n            yield\n            return\n", ""),
+    ), "C22.R5"),
     Twin("repair, but the chain stays on the instance", _P, _OLD, _variant(
         ("        self._creating: dict[str, asyncio.Lock] = {}\n", "        self._creating: dict[str, asyncio.Lock] = {}\n        self._chain: list[str] = []\n"),
         ("        resolving = state.resolving\n", "        resolving = self._chain\n"),
@@ -1178,25 +1290,35 @@ TWINS = [
     Twin("repair, name pushed after the factory ran", _P, _OLD, _variant(
         ("        resolving.append(resource.name)\n        try:\n            if not resource.cache:\n                val = await resource.resolve(self)\n",
          "        try:\n            if not resource.cache:\n                val = await resource.resolve(self)\n                resolving.append(resource.name)\n"),), "C22.R5"),
-    # ---- on the pinned text
-    Twin("scope inlined into get (depth held across the await there too)", _P,
-         "            with self.resolution_scope():\n                return await self._get(resource)\n",
-         "            self._resolution_depth += 1\n            try:\n                return await self._get(resource)\n            finally:\n                self._resolution_depth -= 1\n                if self._resolution_depth == 0:\n                    self._resolution_cache.clear()\n",
-         "C22.R1"),
+    # ---- revert of the repair (bookkeeping back on the shared instance) and variants of that shape
+    Twin("revert of the repair: chain, scope cache and depth on the shared instance", _P, _OLD, _PINNED_CLASS, "C22.R1"),
+    Twin("pre-repair shape with the scope inlined into get", _P, _OLD, _PINNED_CLASS.replace(
+        "            with self.resolution_scope():\n                return await self._get(resource)\n",
+        "            self._resolution_depth += 1\n            try:\n                return await self._get(resource)\n            finally:\n                self._resolution_depth -= 1\n                if self._resolution_depth == 0:\n                    self._resolution_cache.clear()\n"),
+        "C22.R1|workflows.resource:ResourceManager.get"),
+    Twin("pre-repair shape, finally dropped from the scope", _P, _OLD, _PINNED_CLASS.replace(
+        "        self._resolution_depth += 1\n        try:\n            yield\n        finally:\n            self._resolution_depth -= 1\n            if self._resolution_depth == 0:\n                self._resolution_cache.clear()\n",
+        "        self._resolution_depth += 1\n        yield\n        self._resolution_depth -= 1\n        if self._resolution_depth == 0:\n            self._resolution_cache.clear()\n"), "C22.R5"),
+    Twin("pre-repair shape, scope cache never cleared", _P, _OLD, _PINNED_CLASS.replace(
+        "            if self._resolution_depth == 0:\n                self._resolution_cache.clear()\n", "            pass\n"), "C22.R5"),
+    # ---- small anchors on the repaired text
+    Twin("ContextVar default is a shared record", _P, '    "workflows_resource_resolution", default=None\n', '    "workflows_resource_resolution", default=_Resolution(None)  # type: ignore[arg-type]\n', "C22.R1"),
+    Twin("scope not reset when the step body raises", _P, "        try:\n            yield\n        finally:\n            _RESOLUTION.reset(token)\n", "        yield\n        _RESOLUTION.reset(token)\n", "C22.R5"),
+    Twin("scope never reset", _P, "        finally:\n            _RESOLUTION.reset(token)\n", "        finally:\n            pass\n", "C22.R5"),
+    Twin("nested-scope test dropped: every get() installs a fresh resolution", _P,
+         "        if current is not None and current.manager is self:\n            # Nested scope in the same task: share the outer resolution.\n            yield\n            return\n", "", "C22.R5"),
     Twin("second unguarded creation path in get", _P,
-         "        if self._resolution_depth == 0:\n            with self.resolution_scope():",
-         "        if resource.cache and resource.name not in self.resources and not resource.get_dependencies():\n            val = await resource.resolve(self)\n            self.resources[resource.name] = val\n            return val\n        if self._resolution_depth == 0:\n            with self.resolution_scope():",
+         "    async def get(self, resource: ResourceDescriptor) -> Any:\n        with self.resolution_scope():\n",
+         "    async def get(self, resource: ResourceDescriptor) -> Any:\n        if resource.cache and resource.name not in self.resources and not resource.get_dependencies():\n            val = await resource.resolve(self)\n            self.resources[resource.name] = val\n            return val\n        with self.resolution_scope():\n",
          "C22.R2"),
-    Twin("finally dropped from the scope", _P,
-         "        self._resolution_depth += 1\n        try:\n            yield\n        finally:\n            self._resolution_depth -= 1\n            if self._resolution_depth == 0:\n                self._resolution_cache.clear()\n",
-         "        self._resolution_depth += 1\n        yield\n        self._resolution_depth -= 1\n        if self._resolution_depth == 0:\n            self._resolution_cache.clear()\n", "C22.R5"),
-    Twin("scope cache never cleared", _P, "            if self._resolution_depth == 0:\n                self._resolution_cache.clear()\n", "            pass\n", "C22.R5"),
     Twin("chain entry removed only on success", _P,
-         "            self._resolution_cache[resource.name] = val\n            return val\n        finally:\n            if resource.name in self._resolving:\n                self._resolving.remove(resource.name)\n",
-         "            self._resolution_cache[resource.name] = val\n            self._resolving.remove(resource.name)\n            return val\n        finally:\n            pass\n", "C22.R5"),
-    Twin("benign: unconditional pop in the finally", _P, "            if resource.name in self._resolving:\n                self._resolving.remove(resource.name)", "            self._resolving.remove(resource.name)", None),
-    Twin("benign: early-return form of get", _P,
-         "        if self._resolution_depth == 0:\n            with self.resolution_scope():\n                return await self._get(resource)\n        return await self._get(resource)\n",
-         "        if self._resolution_depth != 0:\n            return await self._get(resource)\n        with self.resolution_scope():\n            return await self._get(resource)\n", None),
+         "            state.cache[resource.name] = val\n            return val\n        finally:\n            if resource.name in state.resolving:\n                state.resolving.remove(resource.name)\n",
+         "            state.cache[resource.name] = val\n            state.resolving.remove(resource.name)\n            return val\n        finally:\n            pass\n", "C22.R5"),
+    Twin("cycle test only for cached resources", _P, "        if resource.name in state.resolving:\n            chain", "        if resource.cache and resource.name in state.resolving:\n            chain", "C22.R5"),
+    Twin("name pushed after the factory ran", _P, "        state.resolving.append(resource.name)\n        try:\n            val = await resource.resolve(self)\n",
+         "        try:\n            val = await resource.resolve(self)\n            state.resolving.append(resource.name)\n", "C22.R5"),
+    Twin("benign: unconditional pop in the finally", _P, "            if resource.name in state.resolving:\n                state.resolving.remove(resource.name)", "            state.resolving.remove(resource.name)", None),
+    Twin("benign: chain through a local alias", _P, "        state.resolving.append(resource.name)\n        try:", "        chain_ = state.resolving\n        state.resolving.append(resource.name)\n        try:", None),
+    Twin("benign: scope test written the other way round", _P, "        if current is not None and current.manager is self:\n", "        if not (current is None or current.manager is not self):\n", None),
     Twin("benign: set() writes by subscript", _P, "        self.resources.update({name: val})", "        self.resources[name] = val", None),
 ]
